@@ -101,6 +101,7 @@ package statesync
 //@ func chunkQueue.Next
 //@   assigns except(types, sm, statesync.snapshot)
 //@   ensures chosen: (result1 == nil && result0 != nil) ==> (result0.Index == index && result0.Sender == q.chunkSenders[index])
+//@   ensures marked: (result1 == nil && result0 != nil) ==> q.chunkReturned[index]
 //@   atcall chunkQueue.load lowest: arg1 == index
 
 //@ func chunkQueue.Allocate
@@ -182,6 +183,7 @@ package statesync
 // A snapshot enters the pool only if neither its format, nor its key, nor the peer offering it has been rejected, and
 // adding never changes a blacklist.
 //@ func snapshotPool.Add
+//@   ensures added: result0 ==> p.snapshots[snapshot.Key(snapshot)] == snapshot
 //@   ensures clean: result0 ==> (!old(p.formatBlacklist[snapshot.Format]) && !old(p.snapshotBlacklist[snapshot.Key(snapshot)]) && !old(p.peerBlacklist[imethod(peer, ID)]))
 //@   ensures refused: (old(p.formatBlacklist[snapshot.Format]) || old(p.snapshotBlacklist[snapshot.Key(snapshot)]) || old(p.peerBlacklist[imethod(peer, ID)])) ==> (!result0 && p.snapshots[snapshot.Key(snapshot)] == old(p.snapshots[snapshot.Key(snapshot)]))
 
